@@ -165,6 +165,13 @@ def eval_sem_one(ck, name, cases, recases=None):
 DAY_NS = 86400 * 10**9
 
 
+def scanned_window(sql):
+    """[from, to) of the scan of the samples table as the statement text names it (diagnosis only)"""
+    import re
+    m = re.search(r"timestamp_ns\) >= \((\d+)\)\) and \(\(samples\.timestamp_ns\) < \((\d+)\)", sql or "")
+    return [int(m.group(1)), int(m.group(2))] if m else None
+
+
 def zone_days(ctx):
     """(UTC day, day in the case's process zone) of the instant 30 minutes before the window start: the first is the day
     bound the statement must carry (the writer dates index rows by the UTC day), the second what a bound formatted in the
@@ -212,6 +219,32 @@ def zone_coverage(ck, res, byid):
     ck.extra.setdefault("input_distribution", {})["process_zones (semantic search)"] = {
         "cases_per_zone": per_zone, "zone_day_after_utc_day": differ_east, "zone_day_before_utc_day": differ_west,
         "databases_with_a_wanted_line_of_a_stream_indexed_only_before_the_zone_day": exposing}
+
+
+def reexec_coverage(ck, res, byid):
+    """how far the search reaches re-execution: cases whose judged statement is the one a re-used plan object returned for a
+    later window, those with a label filter behind a relabelling stage, and the evaluations among them that tell the two
+    windows apart (the reference for the last window keeps a line, or the database holds a line of the first window only)"""
+    n, behind, wanted, stale, three = 0, 0, 0, 0, 0
+    for cid, v in res.items():
+        c = byid[cid]
+        if not c.get("rewin") or not v["ctx_ok"]:
+            continue
+        n += 1
+        three += 1 if len(c["rewin"]) > 1 else 0
+        behind += 1 if "filter-behind-relabel" in (c.get("class") or []) else 0
+        f = c["first_ctx"]
+        lo, hi = c["ctx"]["from_ns"], c["ctx"]["to_ns"]
+        for k, d in enumerate(v["dbs"]):
+            wanted += 1 if d["nwant"] > 0 else 0
+            stale += 1 if any(f["from_ns"] <= x["ts"] < f["to_ns"] and not lo <= x["ts"] < hi for x in c["dbs"][k]["samples"]) else 0
+    ck.obligation("re-execution: one plan object processed two or three times with different windows (tail), the LAST statement judged against the LAST window "
+                  "(%d cases, %d with three calls, %d with a label filter behind json / regexp / drop; evaluations whose reference keeps a line: %d; "
+                  "databases holding a line inside the first window and outside the last: %d)" % (n, three, behind, wanted, stale),
+                  ck.replay or (n >= 30 and behind >= 12 and wanted >= 15 and stale >= 40), "")
+    ck.extra.setdefault("input_distribution", {})["re_execution (semantic search)"] = {
+        "cases": n, "three_calls": three, "label_filter_behind_relabelling_stage": behind,
+        "evaluations_whose_reference_keeps_a_line": wanted, "databases_with_a_line_of_the_first_window_only": stale}
 
 
 def pipeline(ck, tag, cases, ndb):
@@ -372,12 +405,22 @@ def run_semantic(ck, text_cases, recases=None):
                    "replay": "harness logqlsql --cases <query,ctx> gives the SQL (ctx.tz = the zone of the reader process: the harness sets time.Local to it, "
                              "as starting the reader with TZ=<zone> does); evaluate it over db (model/SqlEval.v) or on a ClickHouse with these rows; "
                              "bin/check C07 --replay <this file> does both"}
+            if c.get("rewin"):
+                # re-execution: the statement judged is the one the plan object returned for its LAST window
+                rep["kind"] = ("the SQL a RE-USED plan object returns for its next window does not return the reference answer for that window "
+                               "(one plan, %d Process calls with different windows, as a tail does; the last statement is judged)" % (len(c["rewin"]) + 1))
+                rep["first_ctx"], rep["rewin"], rep["first_sql"] = c.get("first_ctx"), c["rewin"], c.get("first_sql")
+                rep["ctx_is"] = "the context of the LAST Process call (window rewin[-1]); first_ctx = the context of the first call of the same plan object"
+                rep["window_the_statement_scans"] = scanned_window(c["sql"][0])
+                rep["replay"] = ("harness logqlsql --cases <query, ctx = first_ctx, runs = %d, rewin> processes ONE plan with these windows and prints one statement per call; "
+                                 "evaluate the last one over db; bin/check C07 --replay <this file> does both" % (len(c["rewin"]) + 1))
             if guards or not d["same"]:
                 violations.append(rep)
             else:
                 fid = FINDING_WIDTH if not v["width"] else FINDING_ABSENT if not d["absent"] else FINDING_ORACLE if not d["oracle"] else (dev or "unrecorded-deviation")
                 findings_hit.setdefault(fid, []).append(rep)
     zone_coverage(ck, res, byid)
+    reexec_coverage(ck, res, byid)
     unbound = [byid[i]["query"] for i, v in res.items() if not v["wrefs"]]
     ck.obligation("every WithRef of the model's SELECT carries the query that the WITH list binds to its alias (%d plans)" % len(res),
                   not unbound, "; ".join(unbound[:3]))
@@ -404,7 +447,7 @@ def run_semantic(ck, text_cases, recases=None):
     ck.obligation("spec oracle sem3_b accepts the rows of the implementation's SQL on every guarded (query, ctx, database)",
                   not violations, "%d wrong answers; first: %s" % (len(violations), violations[0]["query"] if violations else ""))
     if violations:
-        worst = min(violations, key=lambda x: (len(x["db"]["samples"]) + len(x["db"]["series"]), len(x["query"])))
+        worst = min(violations, key=lambda x: (len(x.get("rewin") or []), len(x["db"]["samples"]) + len(x["db"]["series"]), len(x["query"])))
         ck.violation(worst)
     elif getattr(ck, "sql_mismatch_cases", None):
         # the text left the model but no database of the search tells the two SELECTs apart
@@ -514,6 +557,8 @@ def run_replay(ck):
         return
     ok, out = ck.coq_make(["model/LogqlSemCheck.vo"])
     case = {"id": 1, "query": r["query"], "ctx": r["ctx"], "runs": 1, "class": [], "dbs": [r["db"]]}
+    if r.get("rewin"):     # a re-execution replay: the plan is first processed with first_ctx, then with the windows of rewin
+        case.update({"ctx": r["first_ctx"], "runs": len(r["rewin"]) + 1, "rewin": r["rewin"]})
     enriched, out = pipeline(ck, "replay", [case], 1)
     if enriched is None or enriched[0].get("skip"):
         ck.obligation("replay case prepared", False, (out or enriched[0].get("skip"))[-800:])
